@@ -53,6 +53,52 @@ theorem vrf_ce_step (t : Tbl) (vr : Vrf) (v : LView) (p : VPath) (wd : Bool)
       (v.apply (ceOnTableChange vr (t.dest p.nlri) ((t.update p wd).dest p.nlri))) :=
   ce_table_step t vr v p wd h hf hinj hv
 
+/-
+  Full strength (`vrf_ce_view_exact`), FALSE of the model that mirrors the code and of the code:
+
+    theorem vrf_ce_view_exact (vr : Vrf) (evs : List (VPath × Bool)) (fresh announcements) :
+        CEViewExact (CESys.run vr evs).t vr (CESys.run vr evs).v
+
+  gobgp keeps no per-VRF best path: propagateUpdateToNeighbors works per VPN destination (rd, prefix)
+  and a neighbor in a VRF has one key per prefix, so the destination that changed last decides.
+  Replayed on the real BgpServer by the first histories of c17CorpusSrv `dual` (known findings
+  vrf-ce-lost-route-with-other-rd, vrf-ce-not-best-among-rds).
+-/
+
+/-- the witness: the dual-homed prefix 0 under RD 5 (preferred) and RD 6; RD 6 is withdrawn -/
+def dualA : VPath := { uid := 1, root := 1, src := 1, pathId := 0, rd := 5, pfx := 0, label := 1005, pref := 292, marker := 1, ecs := [842122827661313] }
+def dualB : VPath := { uid := 2, root := 2, src := 2, pathId := 0, rd := 6, pfx := 0, label := 1006, pref := 168, marker := 2, ecs := [842122827661313] }
+def dualVrf : Vrf := { name := 1, rd := 1, label := 0, imports := [842122827661313], exports := [] }
+
+/-- after "announce under RD 5, announce under RD 6" the neighbor holds the less preferred route … -/
+theorem vrf_ce_view_exact_counterexample_not_best :
+    (CESys.run dualVrf [(dualA, false), (dualB, false)]).v 0 = some 2 ∧
+    (pickBest (vrfCands (CESys.run dualVrf [(dualA, false), (dualB, false)]).t dualVrf 0)).map (·.marker) = some 1 := by
+  decide
+
+/-- … and after the withdrawal of the RD 6 route it holds nothing, although the RD 5 route is still
+    imported: the full-strength statement fails on this history. -/
+theorem vrf_ce_view_exact_counterexample :
+    ¬ CEViewExact (CESys.run dualVrf [(dualA, false), (dualB, false), (dualB, true)]).t dualVrf
+        (CESys.run dualVrf [(dualA, false), (dualB, false), (dualB, true)]).v := by
+  intro h
+  have h0 := h 0
+  revert h0
+  decide
+
+/-- `vrf_ce_view_partial`: over every history in which a prefix never occurs under two RDs, the
+    neighbor holds exactly the importable best path of the prefix's destination. -/
+theorem vrf_ce_view_partial (vr : Vrf) (x : CESys) (h : CEReachUniq vr x) : CEViewOK x.t vr x.v := by
+  suffices hs : Reach x.t ∧ CEViewOK x.t vr x.v from hs.2
+  induction h with
+  | init =>
+    refine ⟨Reach.empty, ?_, ?_⟩
+    · intro n hn; simp [CESys.init, Tbl.empty] at hn
+    · intro x _; rfl
+  | step x p wd _ hf hinj ih =>
+    obtain ⟨hr, hv⟩ := ih
+    exact ⟨Reach.step _ p wd hr hf, ce_table_step x.t vr x.v p wd (reach_inv _ hr).1 hf hinj hv⟩
+
 /-! ### the memberships this speaker originates for its VRFs -/
 
 /-- After any sequence of VRF adds, VRF deletes and memberships received from neighbours for the same
